@@ -128,6 +128,15 @@ func genDataMessage(t *rapid.T) *c09Case {
 		fields = append(fields, wVarintPadded(wTag(nil, 3, 0), v, genPad(t)))
 	}
 	bs := rapid.SliceOfN(u64Gen, 0, 6).Draw(t, "blocksizes")
+	if rapid.IntRange(0, 40).Draw(t, "longBlocksizes") == 0 {
+		// long runs (a 1 GiB file at the default chunk size has ~4000 entries)
+		n := rapid.SampledFrom([]int{174, 255, 256, 1023, 1024, 1025, 2000, 4100}).Draw(t, "nblocksizes")
+		bs = make([]uint64, n)
+		for i := range bs {
+			bs[i] = uint64(262144 + i%3)
+		}
+		c.flags["long-blocksizes"] = true
+	}
 	if len(bs) > 0 {
 		c.msg.Blocksizes = bs
 	}
